@@ -192,3 +192,12 @@ def attribute_provenance(ctx):
 
 def _scool_guard(g):
     return False
+
+
+_run_core = run
+
+
+def run(ctx):
+    _run_core(ctx)
+    from . import refs_misc
+    refs_misc.run_for(ctx, 'C02')
